@@ -240,7 +240,9 @@ def st_downsample(draw):
     factors = [draw(st.integers(1, 4)) for _ in range(k)]
     shift = None
     if draw(st.booleans()):
-        shift = [draw(st.integers(0, min(f, n) - 1)) for f, n in zip(factors, sh)]
+        # any in-range start index ("takes every f-th element from the shift"): also shift >= factor, and
+        # factor 1 with a non-zero shift
+        shift = [draw(st.integers(0, (n if draw(st.booleans()) else min(f, n)) - 1)) for f, n in zip(factors, sh)]
     return {"f": "downsample", "x": {"k": "lab", "shape": sh, "dtype": draw(st.sampled_from(DT)), "layout": draw(LAY)},
             "factors": factors, "shift": shift}
 
@@ -387,7 +389,7 @@ def sweep_dispatch(case):
 def sweep_configs():
     """finite sub-domains enumerated completely: centred 1-D resize n -> m for n, m in 1..24; 2-D resize pairs over
     {1..5}^2 -> {1..5}^2 (pad one axis, crop the other, all parities); 1-D blocks N <= 14, B <= N, S <= B + 2; 1-D
-    down/upsample n <= 14, factor <= 4, shift < factor; 1-D circshift n <= 8, shift in -9..9."""
+    down/upsample n <= 14, factor <= 4, every shift < n; 1-D circshift n <= 8, shift in -9..9."""
     out = []
     for n in range(1, 25):
         for m in range(1, 25):
@@ -406,7 +408,7 @@ def sweep_configs():
                 out.append({"f": "blocks", "batch": [], "N": [N], "B": [B], "S": [S], "dtype": "float64", "seed": N * 100 + B * 10 + S})
     for n in range(1, 15):
         for f in range(1, 5):
-            for sh in range(0, min(f, n)):
+            for sh in range(0, n):
                 out.append({"f": "downsample", "x": {"k": "lab", "shape": [n], "dtype": "float64"}, "factors": [f],
                             "shift": [sh] if sh else None})
     for n in range(1, 9):
@@ -417,7 +419,7 @@ def sweep_configs():
 
 def extra_coverage(tier):
     return {"exhaustive_subdomains": ["resize: all centred 1-D (n -> m), n, m in 1..24, and all 2-D pad+crop pairs over 1..5; blocks 1-D "
-                                      "N <= 14 x B <= N x S <= B+2; down/upsample n <= 14 x f <= 4 x shift < f; circshift n <= 8 x "
+                                      "N <= 14 x B <= N x S <= B+2; down/upsample n <= 14 x f <= 4 x shift < n; circshift n <= 8 x "
                                       "shift -9..9 (%d configurations, part 'lengths')" % len(sweep_configs())]}
 
 
